@@ -11,84 +11,42 @@ open Tabula.Xml Tabula.Render
 
 /-! ### the walk with style names is the walk of `Model/Odt.lean` with more columns -/
 
-def eraseW (w : WalkX) : Walk := { inBody := w.inBody, done := w.done, acc := w.acc.map (·.elem) }
+def eraseW (w : WalkX) : Walk := { inBody := w.inBody, failed := w.failed, acc := w.acc.map (·.elem) }
 
-/-- the walk with style names, and the decoder's giving up inside it, are those of
-`Model/Odt.lean` once the style names and column counts are forgotten -/
-theorem walkNodeX_erase_both (defs : List StyleDef) (n : Node) :
-    (∀ w : WalkX, eraseW (walkNodeX defs n w) = walkNode defs n (eraseW w)) ∧
-    (∀ (ctx : Ctx) (w : WalkX), (scanNodeX defs ctx n w).map eraseW = scanNode defs ctx n (eraseW w)) := by
-  induction n using Node.rec (motive_2 := fun l =>
-      (∀ w : WalkX, eraseW (walkListX defs l w) = walkList defs l (eraseW w)) ∧
-      (∀ (ctx : Ctx) (w : WalkX), (scanListX defs ctx l w).map eraseW = scanList defs ctx l (eraseW w))) with
-  | elem tag attrs kids ih =>
-    obtain ⟨ihw, ihs⟩ := ih
-    constructor
-    · intro w
-      simp only [walkNodeX, walkNode]
-      have hd : (eraseW w).done = w.done := rfl
-      have hb : (eraseW w).inBody = w.inBody := rfl
-      rw [hd, hb]
-      split
-      · rfl
-      · split
-        · have := ihw { w with inBody := true }
-          simp only [eraseW] at this ⊢
-          rw [← this]
-        · split
-          · exact ihw w
-          · split
-            · have h := ihs (.inline 0) w
-              cases hx : scanListX defs (.inline 0) kids w with
-              | none => rw [hx] at h; rw [← h]; simp [eraseW]
-              | some w' => rw [hx] at h; rw [← h]; simp [eraseW]
-            · split
-              · have h := ihs (.inline 0) w
-                cases hx : scanListX defs (.inline 0) kids w with
-                | none => rw [hx] at h; rw [← h]; simp [eraseW]
-                | some w' => rw [hx] at h; rw [← h]; simp [eraseW]
-              · split
-                · have h := ihs .list { w with listStyle := listStyleAfter attrs w.listStyle }
-                  have he : eraseW { w with listStyle := listStyleAfter attrs w.listStyle } = eraseW w := rfl
-                  rw [he] at h
-                  cases hx : scanListX defs .list kids { w with listStyle := listStyleAfter attrs w.listStyle } with
-                  | none => rw [hx] at h; rw [← h]; simp [eraseW, List.map_map, Function.comp_def]
-                  | some w' => rw [hx] at h; rw [← h]; simp [eraseW]
-                · split
-                  · have h := ihs .table w
-                    cases hx : scanListX defs .table kids w with
-                    | none => rw [hx] at h; rw [← h]; simp [eraseW]
-                    | some w' => rw [hx] at h; rw [← h]; simp [eraseW]
-                  · exact ihw w
-    · intro ctx w
-      simp only [scanNodeX, scanNode]
-      cases descend ctx (localName tag) with
-      | skip => rfl
-      | fail => simp only [Option.map_some]; rw [ihw w]
-      | into c => exact ihs c w
-  | text s => exact ⟨fun w => by simp [walkNodeX, walkNode], fun ctx w => by simp [scanNodeX, scanNode]⟩
-  | nil => exact ⟨fun w => by simp [walkListX, walkList], fun ctx w => by simp [scanListX, scanList]⟩
-  | cons n rest ihn ihr =>
-    obtain ⟨ihnw, ihns⟩ := ihn
-    obtain ⟨ihrw, ihrs⟩ := ihr
-    constructor
-    · intro w
-      simp only [walkListX, walkList]
-      rw [ihrw, ihnw]
-    · intro ctx w
-      simp only [scanListX, scanList]
-      have h := ihns ctx w
-      cases hx : scanNodeX defs ctx n w with
-      | none => rw [hx] at h; rw [← h]; exact ihrs ctx w
-      | some w' =>
-        rw [hx] at h; rw [← h]
-        cases ctx.isInline
-        · simp
-        · simp [ihrw]
-
+/-- the walk with style names is that of `Model/Odt.lean` once the style names and column
+counts are forgotten - the elements it records and whether it ends with the depth error -/
 theorem walkNodeX_erase (defs : List StyleDef) (n : Node) :
-    ∀ w : WalkX, eraseW (walkNodeX defs n w) = walkNode defs n (eraseW w) :=
-  (walkNodeX_erase_both defs n).1
+    ∀ w : WalkX, eraseW (walkNodeX defs n w) = walkNode defs n (eraseW w) := by
+  induction n using Node.rec (motive_2 := fun l =>
+      ∀ w : WalkX, eraseW (walkListX defs l w) = walkList defs l (eraseW w)) with
+  | elem tag attrs kids ih =>
+    intro w
+    simp only [walkNodeX, walkNode]
+    have hd : (eraseW w).failed = w.failed := rfl
+    have hb : (eraseW w).inBody = w.inBody := rfl
+    rw [hd, hb]
+    split
+    · rfl
+    · split
+      · have := ih { w with inBody := true }
+        simp only [eraseW] at this ⊢
+        rw [← this]
+      · split
+        · exact ih w
+        · split
+          · split <;> simp [eraseW]
+          · split
+            · split <;> simp [eraseW]
+            · split
+              · split <;> simp [eraseW, List.map_map, Function.comp_def]
+              · split
+                · split <;> simp [eraseW]
+                · exact ih w
+  | text s => intro w; simp [walkNodeX, walkNode]
+  | nil => simp [walkListX, walkList]
+  | cons n rest ihn ihr =>
+    simp only [walkListX, walkList]
+    rw [ihr, ihn]
 
 theorem walkListX_erase (defs : List StyleDef) (l : List Node) :
     ∀ w : WalkX, eraseW (walkListX defs l w) = walkList defs l (eraseW w) := by
@@ -96,30 +54,12 @@ theorem walkListX_erase (defs : List StyleDef) (l : List Node) :
   | nil => intro w; rfl
   | cons n rest ih => intro w; simp only [walkListX, walkList]; rw [ih, walkNodeX_erase]
 
-theorem scanListX_erase (defs : List StyleDef) (ctx : Ctx) (l : List Node) :
-    ∀ w : WalkX, (scanListX defs ctx l w).map eraseW = scanList defs ctx l (eraseW w) := by
-  induction l with
-  | nil => intro w; rfl
-  | cons n rest ih =>
-    intro w
-    simp only [scanListX, scanList]
-    have h := (walkNodeX_erase_both defs n).2 ctx w
-    cases hx : scanNodeX defs ctx n w with
-    | none => rw [hx] at h; rw [← h]; exact ih w
-    | some w' =>
-      rw [hx] at h; rw [← h]
-      cases ctx.isInline
-      · simp
-      · simp [walkListX_erase]
-
-/-- a body element that is decoded to its end leaves the walk with style names alone, too -/
-theorem scanX_none (defs : List StyleDef) (ctx : Ctx) (l : List Node) (w : WalkX)
-    (h : (residualList ctx l).isNone = true) : scanListX defs ctx l w = none := by
-  have h1 := scanListX_erase defs ctx l w
-  rw [scan_none defs ctx l (eraseW w) h] at h1
-  cases hx : scanListX defs ctx l w with
-  | none => rfl
-  | some w' => rw [hx] at h1; cases h1
+/-- the two walks over content.xml -/
+theorem bodyWalkX_erase (content : Node) (styles : Option Node) :
+    eraseW (bodyWalkX content styles) = bodyWalk content styles := by
+  unfold bodyWalkX bodyWalk
+  rw [walkNodeX_erase]
+  rfl
 
 /-! ### plain text -/
 
@@ -398,5 +338,170 @@ theorem docLoop_flat (ls : List ListStyle) : ∀ (els : List ElemX) (s : DocStat
     simp only [docLoop]
     rw [ih, docStep_flat, List.filterMap_cons]
     cases entryOf e <;> simp
+
+/-! ### the width of the document-model grid: `processRowSpans` in grid columns -/
+
+/-- the grid columns the cells of one parsed row take in `ToModelTable` -/
+def rowGridWidth (cs : List Cell) : Nat := (cs.map gridWidth).sum
+
+theorem rowGridWidth_append (a b : List Cell) : rowGridWidth (a ++ b) = rowGridWidth a + rowGridWidth b := by
+  simp [rowGridWidth]
+
+theorem foldl_gridWidth : ∀ (l : List Cell) (a : Nat), l.foldl (fun s c => s + gridWidth c) a = a + rowGridWidth l := by
+  intro l
+  induction l with
+  | nil => intro a; simp [rowGridWidth]
+  | cons c cs ih =>
+    intro a
+    simp only [List.foldl_cons]
+    rw [ih]
+    simp only [rowGridWidth, List.map_cons, List.sum_cons]
+    omega
+
+theorem foldl_max_le (f : List Cell → Nat) (b : Nat) : ∀ (rows : List (List Cell)) (a : Nat),
+    a ≤ b → (∀ row ∈ rows, f row ≤ b) → rows.foldl (fun m row => max m (f row)) a ≤ b := by
+  intro rows
+  induction rows with
+  | nil => intro a h _; simpa using h
+  | cons r rs ih =>
+    intro a ha h
+    simp only [List.foldl_cons]
+    apply ih
+    · have := h r List.mem_cons_self; omega
+    · intro row hrow; exact h row (List.mem_cons_of_mem _ hrow)
+
+/-- the widest row is no wider than a bound every row keeps -/
+theorem modelColCount_le (rows : List (List Cell)) (b : Nat) (h : ∀ row ∈ rows, rowGridWidth row ≤ b) :
+    modelColCount rows ≤ b := by
+  unfold modelColCount
+  apply foldl_max_le _ b rows 0 (Nat.zero_le _)
+  intro row hrow
+  rw [foldl_gridWidth]
+  have := h row hrow
+  omega
+
+theorem foldl_max_unit (rows : List (List Cell)) (h : ∀ row ∈ rows, ∀ c ∈ row, gridWidth c = 1) :
+    ∀ a, rows.foldl (fun m row => max m (row.foldl (fun s c => s + gridWidth c) 0)) a = rows.foldl (fun m row => max m row.length) a := by
+  induction rows with
+  | nil => intro a; rfl
+  | cons r rs ih =>
+    intro a
+    simp only [List.foldl_cons]
+    have hr : r.foldl (fun s c => s + gridWidth c) 0 = r.length := by
+      rw [foldl_gridWidth]
+      have : ∀ l : List Cell, (∀ c ∈ l, gridWidth c = 1) → rowGridWidth l = l.length := by
+        intro l
+        induction l with
+        | nil => intro _; rfl
+        | cons c cs ihc =>
+          intro hl
+          have h1 := hl c List.mem_cons_self
+          have h2 := ihc (fun x hx => hl x (List.mem_cons_of_mem _ hx))
+          simp only [rowGridWidth, List.map_cons, List.sum_cons, List.length_cons] at h2 ⊢
+          omega
+      rw [this r (h r List.mem_cons_self)]
+      omega
+    rw [hr]
+    exact ih (fun row hrow => h row (List.mem_cons_of_mem _ hrow)) _
+
+/-- a table in which every cell takes one grid column is as wide as its longest row -/
+theorem modelColCount_unit (rows : List (List Cell)) (h : ∀ row ∈ rows, ∀ c ∈ row, gridWidth c = 1) :
+    modelColCount rows = widest rows := by
+  unfold modelColCount widest
+  exact foldl_max_unit rows h 0
+
+/-- the placeholder loop adds one grid column per placeholder and never passes the width -/
+theorem skipCovered_width (cc : Nat) : ∀ (fuel col : Nat) (rem : List Nat) (out : List Cell),
+    rowGridWidth (skipCovered fuel cc col rem out).2.2 + col = rowGridWidth out + (skipCovered fuel cc col rem out).1
+    ∧ (skipCovered fuel cc col rem out).1 ≤ max col cc := by
+  intro fuel
+  induction fuel with
+  | zero => intro col rem out; simp [skipCovered]; omega
+  | succ n ih =>
+    intro col rem out
+    simp only [skipCovered]
+    split
+    · rename_i h
+      obtain ⟨h1, h2⟩ := ih (col + 1) (rem.set col (rem.getD col 0 - 1)) (out ++ [coveredCell])
+      rw [rowGridWidth_append] at h1
+      have hw : rowGridWidth [coveredCell] = 1 := by decide
+      refine ⟨by omega, by omega⟩
+    · simp; omega
+
+/-- the cell loop of one row: the grid columns of the cells put out are the column index reached,
+and that index stays below `cc + S` when no cell spans more than `S` columns (a cell is only
+placed when it STARTS inside the width `cc`) -/
+theorem spanRow_width (cc S : Nat) : ∀ (cells : List Cell) (col : Nat) (rem : List Nat) (out : List Cell),
+    (∀ c ∈ cells, c.covered = false ∧ c.colSpan ≤ S) →
+    rowGridWidth (spanRow cc cells col rem out).2.2 + col = rowGridWidth out + (spanRow cc cells col rem out).1
+    ∧ (spanRow cc cells col rem out).1 ≤ max col (cc + S) := by
+  intro cells
+  induction cells with
+  | nil => intro col rem out _; simp [spanRow]; omega
+  | cons c rest ih =>
+    intro col rem out hc
+    simp only [spanRow]
+    obtain ⟨hs1, hs2⟩ := skipCovered_width cc cc col rem out
+    generalize skipCovered cc cc col rem out = r at hs1 hs2
+    obtain ⟨col1, rem1, out1⟩ := r
+    simp only at hs1 hs2 ⊢
+    split
+    · simp only; exact ⟨hs1, by omega⟩
+    · rename_i hlt
+      have hcc := hc c List.mem_cons_self
+      obtain ⟨h1, h2⟩ := ih (col1 + c.colSpan) (if c.rowSpan > 1 then markSpan c.colSpan cc col1 (c.rowSpan - 1) rem1 else rem1)
+        (out1 ++ [c]) (fun x hx => hc x (List.mem_cons_of_mem _ hx))
+      rw [rowGridWidth_append] at h1
+      have hw : rowGridWidth [c] = c.colSpan := by simp [rowGridWidth, gridWidth, hcc.1]
+      refine ⟨by omega, by omega⟩
+
+/-- every row `processRowSpans` puts out takes at most `cc + S` grid columns -/
+theorem spanRows_width (cc S : Nat) : ∀ (rows : List (List Cell)) (rem : List Nat),
+    (∀ row ∈ rows, ∀ c ∈ row, c.covered = false ∧ c.colSpan ≤ S) →
+    ∀ row ∈ spanRows cc rows rem, rowGridWidth row ≤ cc + S := by
+  intro rows
+  induction rows with
+  | nil => intro rem _ row hrow; simp [spanRows] at hrow
+  | cons r rs ih =>
+    intro rem h row hrow
+    simp only [spanRows] at hrow
+    obtain ⟨h1, h2⟩ := spanRow_width cc S r 0 rem [] (h r List.mem_cons_self)
+    generalize spanRow cc r 0 rem [] = x at h1 h2 hrow
+    obtain ⟨col1, rem1, out1⟩ := x
+    simp only at h1 h2 hrow
+    obtain ⟨h3, h4⟩ := skipCovered_width cc cc col1 rem1 out1
+    generalize skipCovered cc cc col1 rem1 out1 = y at h3 h4 hrow
+    obtain ⟨col2, rem2, out2⟩ := y
+    simp only at h3 h4 hrow
+    cases hrow with
+    | head =>
+      have : rowGridWidth ([] : List Cell) = 0 := rfl
+      omega
+    | tail _ hm => exact ih rem2 (fun r' hr' => h r' (List.mem_cons_of_mem _ hr')) row hm
+
+theorem colSpan_le_rowSum : ∀ (r : List Cell) (c : Cell), c ∈ r → c.colSpan ≤ (r.map (·.colSpan)).sum := by
+  intro r
+  induction r with
+  | nil => intro c hc; cases hc
+  | cons x xs ih =>
+    intro c hc
+    simp only [List.map_cons, List.sum_cons]
+    cases hc with
+    | head => omega
+    | tail _ hm => have := ih c hm; omega
+
+/-- **processRowSpans_width**. After `processRowSpans` no row takes more than twice the width
+`colCount` of the table in grid columns (placeholders pushed in front of a row can move its last
+cell across the right edge; a cell is never wider than the table). -/
+theorem processRowSpans_width (rows : List (List Cell)) (h : ∀ row ∈ rows, ∀ c ∈ row, c.covered = false) :
+    modelColCount (processRowSpans rows) ≤ 2 * colCount rows := by
+  apply modelColCount_le
+  intro row hrow
+  unfold processRowSpans at hrow
+  have := spanRows_width (colCount rows) (colCount rows) rows _ (fun r hr c hc => ⟨h r hr c hc, by
+    have h1 := rowWidth_le_colCount rows r hr
+    have h2 := colSpan_le_rowSum r c hc
+    omega⟩) row hrow
+  omega
 
 end Tabula.Odt
